@@ -348,6 +348,4 @@ ReachStalled == stalled = None
 ReachExitConnected == ~(pc = "idle" /\ cancelled /\ \E p \in Remembered : Conn(net[p]) /\ data[p])
 \* a dropped tick: the loop is inside a run when the next tick is already waiting
 ReachLateTick == ~(pc = "asked" /\ tickPending)
-\* a second grace period of the same peer ends in a second removal
-ReachTwice == ~(\E p \in Peers : pc = "asked" /\ cur = p /\ ~Conn(reply) /\ data[p] /\ relearnt[p] /\ lastEv[p] = "N" /\ nemit >= 3)
 =============================================================================
